@@ -227,6 +227,18 @@ let run_bc = function
       (bc_run (zs w) (env_of env) (lim = "1") (zs budget) (nat_of_int (int_of_string fuel)) p)
   | _ -> "ERR bad bc line"
 
+(* bcreach|w|fuel|bc-text|env : unlimited run of the bytecode model; reports the extreme pointer
+   positions and the declared window: "<status> <lo> <hi> <min> <max>" (the cells a run can touch
+   lie in [lo+min, hi+max] by C11_cells_in_window) *)
+let run_bcreach = function
+  | [w; fuel; bc; env] ->
+    let p = parse_bc (toks_of bc) in
+    let o = bc_run (zs w) (env_of env) false Z0 (nat_of_int (int_of_string fuel)) p in
+    let st = match o with Done _ -> "done" | Stopped _ -> "stopped" | Interrupted _ -> "interrupted" | Errored _ -> "errored" | OutOfFuel _ -> "fuel" in
+    let s = outcome_state o in
+    st ^ " " ^ sz s.bc_lo ^ " " ^ sz s.bc_hi ^ " " ^ sz p.bp_min ^ " " ^ sz p.bp_max
+  | _ -> "ERR bad bcreach line"
+
 (* parse|w|cp,cp,cp,... *)
 let run_parse = function
   | [w; cps] ->
@@ -324,6 +336,8 @@ let parse_rops (s : Stdlib.String.t) : rop list =
         match split_on ':' x with
         | ["e"] -> Some REnter
         | ["m"; d] -> Some (RMov (zs d))
+        | ["mu"; d] -> Some (RMovU (zs d))
+        | ["pre"; a; b] -> Some (RPre (zs a, zs b))
         | ["g"; k] -> Some (RGet (zs k))
         | ["s"; k; v] -> Some (RSet (zs k, zs v))
         | _ -> failwith ("bad raw op " ^ x)) (split_on ';' s)
@@ -602,7 +616,7 @@ let run_bcmem = function
      | _ -> "notdone")
   | _ -> "ERR bad bcmem line"
 
-let handlers : (Stdlib.String.t * (Stdlib.String.t list -> Stdlib.String.t)) list ref = ref [ ("cell", run_cell); ("bf", run_bf); ("inplace", run_inplace); ("ir", run_ir); ("bc", run_bc); ("parse", run_parse); ("bfbig", run_bfbig); ("bcmem", run_bcmem); ("formsnf", run_formsnf); ("shapes", run_shapes); ("cli", run_cli); ("bcwf", run_bcwf); ("bfx", run_bfx); ("expr", run_expr); ("svec", run_svec); ("tape", run_tape); ("rawproto", run_rawproto); ("bfcycle", run_bfcycle); ("irbig", run_irbig) ]
+let handlers : (Stdlib.String.t * (Stdlib.String.t list -> Stdlib.String.t)) list ref = ref [ ("cell", run_cell); ("bf", run_bf); ("inplace", run_inplace); ("ir", run_ir); ("bc", run_bc); ("bcreach", run_bcreach); ("parse", run_parse); ("bfbig", run_bfbig); ("bcmem", run_bcmem); ("formsnf", run_formsnf); ("shapes", run_shapes); ("cli", run_cli); ("bcwf", run_bcwf); ("bfx", run_bfx); ("expr", run_expr); ("svec", run_svec); ("tape", run_tape); ("rawproto", run_rawproto); ("bfcycle", run_bfcycle); ("irbig", run_irbig) ]
 
 let () =
   (try
